@@ -44,6 +44,7 @@ func runC06(c *Ctx) {
 	c.NotDec = []string{"grid contents (graphemes, widths, styles) after each operation; SGR-to-pen mapping (C18); behaviour in the deferred-wrap column other than printing, CR and absolute positioning (exempt by the statement)"}
 	c.Assume = append(c.Assume, "terminal sizes are at least 1x1; contract preconditions state larger minimum sizes where needed", "sequence parameters are non-negative (C05.d)")
 	defer debug.SetGCPercent(debug.SetGCPercent(1000)) // the engine allocates many small maps next to a large, static program
+	c05Normalise(c)
 	e := c05Engine(c)
 	if e.pk == nil || e.model == nil || e.cellT == nil {
 		c.undecided("C06.b", "widgets/term", 0, "package widgets/term, type Model or type cell not found")
@@ -627,6 +628,7 @@ type c06Case struct {
 	list    []any  // raw parameter list (each int | c05Lin); nil = not a list handler
 	minRows int64
 	minCols int64
+	margins bool     // name the margins before the call (g0Top, g0Bot) so that a post-condition can say "unchanged"
 	saved   bool     // seed both saved cursors with the ghosts saved.row / saved.col (inside the screen)
 	pre     []c05Lin // each <= 0, over the INV keys (before the call)
 	post    []c06Post
@@ -636,6 +638,8 @@ type c06Case struct {
 const (
 	g0Row = c05Row + "@0"
 	g0Col = c05Col + "@0"
+	g0Top = c05Top_ + "@0"
+	g0Bot = c05Bot + "@0"
 )
 
 func c06Eq(what string, pairs ...any) c06Post { return c06Post{what: what, eq: c05L(pairs...)} }
@@ -784,7 +788,11 @@ func (e *c05Eng) ghostify(st *c05State, key, g string) {
 
 func c06RuleContracts(c *Ctx, e *c05Eng, tabs map[string]*c06Table) {
 	c.expect("C06.d", 35)
-	cases := c06Cases()
+	c06RunContracts(c, e, tabs, c06Cases())
+}
+
+// c06RunContracts proves each contract on the handler its table entry names.
+func c06RunContracts(c *Ctx, e *c05Eng, tabs map[string]*c06Table, cases []c06Case) {
 	sort.SliceStable(cases, func(i, j int) bool { return cases[i].name < cases[j].name })
 	for _, cs := range cases {
 		t := tabs[cs.table]
@@ -880,6 +888,10 @@ func c06RuleContracts(c *Ctx, e *c05Eng, tabs map[string]*c06Table) {
 			}
 			e.ghostify(st, c05Row, g0Row)
 			e.ghostify(st, c05Col, g0Col)
+			if cs.margins {
+				e.ghostify(st, c05Top_, g0Top)
+				e.ghostify(st, c05Bot, g0Bot)
+			}
 		}
 		t0 := time.Now()
 		_, exit := e.analyse(cf, prep)
